@@ -22,7 +22,8 @@ Inductive op :=
 | OpMutVsRef (refidx seqidx : Z)
 | OpMutList (refidx seqidx : Z)      (* c_diffs: one list per mutation, (Ref, Alt byte, Pos) for each Alt byte *)
 | OpPssm (lg : bool) (pc : Q) (norm : Z)   (* c_num = number of NaN entries, c_l1 = [20 repeated calls agree] *)
-| OpCompat (a b : Z).
+| OpCompat (a b : Z)
+| OpCli (what : bs).    (* a command-line result compared with the library by the harness: c_flag = they agree *)
 
 Record case := mk {
   c_alpha : Z; c_in : brows; c_op : op; c_err : bool;
@@ -114,6 +115,7 @@ Definition model_ok (c : case) : bool :=
   | OpPssm lg pc norm =>
       (* the values are certified separately (Corr/C14Cert.v); here: the error condition *)
       Bool.eqb (c_err c) (pssm_error rs al norm)
+  | OpCli _ => true
   | OpCompat a b =>
       match equal_or_compatible a b with
       | None => c_err c
@@ -310,6 +312,7 @@ Definition spec_check (c : case) : option bool :=
       if pssm_error rs al norm then Some (c_err c)
       else if Nat.eqb (length rs) 0 then None
       else Some (negb (c_err c) && Zlist_eqb (c_l1 c) [1%Z] && Z.eqb (c_num c) 0)
+  | OpCli _ => Some (c_flag c)
   | OpCompat a b =>
       if (0 <=? a)%Z && (a <=? 15)%Z && (0 <=? b)%Z && (b <=? 15)%Z
       then Some (negb (c_err c) && Bool.eqb (c_flag c) (Z.eqb a b || negb (Z.eqb (Z.land a b) 0)))
